@@ -284,7 +284,7 @@ Qed.
 
 Lemma fold_prob : forall l r,
   let r' := fold_left put_prob l r in
-  let T := gtake (live r) (r_mainmax r) (sumw (r_prot r) + sumw (r_prob r)) l in
+  let T := gtake (live r) (r_cap r) (r_wsz r) l in
   r_prob r' = r_prob r ++ T /\ r_win r' = r_win r /\ r_prot r' = r_prot r /\ fill_spec r r' T.
 Proof.
   induction l as [|e l IH]; intro r; cbn [fold_left gtake]; cbv zeta.
@@ -294,15 +294,14 @@ Proof.
     assert (Lv : forall x, live (put_prob r e) x = live r x) by (intro x; apply live_frame, F0).
     rewrite (gtake_ext _ _ _ Lv) in W, M, Z.
     destruct F0 as (a1 & a2 & a3 & a4 & a5 & a6 & a7). destruct F as (b1 & b2 & b3 & b4 & b5 & b6 & b7).
-    rewrite a3, Pt0 in W, M, Z.
+    rewrite a4 in W, M, Z.
     unfold fill_spec, same_frame.
-    assert (Q : (live r e && (sumw (r_prot r) + sumw (r_prob r) + pe_pw e <=? r_mainmax r) = true /\ r_prob (put_prob r e) = r_prob r ++ [e] /\ r_map (put_prob r e) = map_put (r_map r) e /\
+    assert (Q : (live r e && (r_wsz r + pe_pw e <=? r_cap r) = true /\ r_prob (put_prob r e) = r_prob r ++ [e] /\ r_map (put_prob r e) = map_put (r_map r) e /\
                  r_wsz (put_prob r e) = r_wsz r + pe_pw e) \/
-                (live r e && (sumw (r_prot r) + sumw (r_prob r) + pe_pw e <=? r_mainmax r) = false /\ put_prob r e = r)).
-    { unfold put_prob. destruct (live r e && (sumw (r_prot r) + sumw (r_prob r) + pe_pw e <=? r_mainmax r)); [left|right]; cbn; auto. }
+                (live r e && (r_wsz r + pe_pw e <=? r_cap r) = false /\ put_prob r e = r)).
+    { unfold put_prob. destruct (live r e && (r_wsz r + pe_pw e <=? r_cap r)); [left|right]; cbn; auto. }
     destruct Q as [(E & Q1 & Q2 & Q3)|(E & Q0)].
-    + rewrite E. rewrite Q1, Q2, Q3 in *. rewrite sumw_app in W, M, Z. change (sumw [e]) with (pe_pw e + 0) in W, M, Z. rewrite Z.add_0_r in W, M, Z.
-      rewrite Z.add_assoc in W, M, Z.
+    + rewrite E. rewrite Q1, Q2, Q3 in *.
       rewrite W, M, Z, <- app_assoc. cbn [fold_left app].
       match goal with |- context [sumw (e :: ?t)] => change (sumw (e :: t)) with (pe_pw e + sumw t) end.
       repeat split; try congruence; lia.
@@ -348,19 +347,20 @@ Proof.
 Qed.
 
 (* loading into any cache (same size or smaller, any elapsed time): each region of the result is
-   an order-preserving part of the saved region and within the capacities in force *)
+   an order-preserving part of the saved region, window and protected are within the capacities in force,
+   and the total is within the capacity of the receiving cache *)
 Lemma reload_any version st tot cap wcap pcap win prot prob cap' wc' pc' mm' st' wall :
-  0 <= wc' -> 0 <= pc' <= mm' -> 0 <= pcap <= mm' ->
+  0 <= wc' -> 0 <= pc' -> wc' + pc' <= cap' -> 0 <= pcap -> wcap + pcap <= cap ->
   let r0 := fresh cap' wc' pc' mm' st' wall in
   let res := recover version r0 (save version st tot cap wcap pcap win prot prob) in
   snd res = rOK /\ r_start (fst res) = st /\
   subseq (r_win (fst res)) win /\ subseq (r_prot (fst res)) prot /\ subseq (r_prob (fst res)) prob /\
   sumw (r_win (fst res)) <= r_wcap (fst res) /\ sumw (r_prot (fst res)) <= r_pcap (fst res) /\
-  sumw (r_prot (fst res)) + sumw (r_prob (fst res)) <= mm' /\
+  r_wsz (fst res) <= cap' /\
   r_wsz (fst res) = sumw (r_win (fst res)) + sumw (r_prot (fst res)) + sumw (r_prob (fst res)) /\
   ((r_wcap (fst res) = wc' /\ r_pcap (fst res) = pc') \/ (r_wcap (fst res) = wcap /\ r_pcap (fst res) = pcap /\ 1 <= wcap /\ cap = cap')).
 Proof.
-  intros Hw Hp Hpc. cbv zeta. rewrite recover_clean by (left; reflexivity). cbn [fst snd].
+  intros Hw Hp Hsum' Hpc Hsum. cbv zeta. rewrite recover_clean by (left; reflexivity). cbn [fst snd].
   set (r1 := with_meta (fresh cap' wc' pc' mm' st' wall) st cap wcap pcap).
   destruct (fold_win win r1) as (W2 & Pb2 & Pt2 & (F2 & M2 & Z2)).
   set (r2 := fold_left put_win win r1) in *.
@@ -370,42 +370,46 @@ Proof.
   set (r4 := fold_left put_prob prob r3) in *.
   destruct F2 as (a1 & a2 & a3 & a4 & a5 & a6 & a7). destruct F3 as (b1 & b2 & b3 & b4 & b5 & b6 & b7).
   destruct F4 as (c1 & c2 & c3 & c4 & c5 & c6 & c7).
-  assert (E1 : r_win r1 = [] /\ r_prob r1 = [] /\ r_prot r1 = [] /\ r_wsz r1 = 0 /\ r_mainmax r1 = mm' /\ r_start r1 = st) by (repeat split; reflexivity).
+  assert (E1 : r_win r1 = [] /\ r_prob r1 = [] /\ r_prot r1 = [] /\ r_wsz r1 = 0 /\ r_cap r1 = cap' /\ r_start r1 = st) by (repeat split; reflexivity).
   destruct E1 as (e1 & e2 & e3 & e4 & e5 & e6).
   assert (Caps : (r_wcap r1 = wc' /\ r_pcap r1 = pc') \/ (r_wcap r1 = wcap /\ r_pcap r1 = pcap /\ 1 <= wcap /\ cap = cap')).
   { unfold r1, with_meta, fresh. cbn [r_cap r_wcap r_pcap].
     destruct ((cap =? cap') && (1 <=? wcap) && (w64 (wcap + pcap) =? w64 (wc' + pc'))) eqn:E; [right|left; auto].
     repeat split; auto; lia. }
   assert (Cw : 0 <= r_wcap r1) by (destruct Caps as [[-> _]|(-> & _ & H1 & _)]; lia).
-  assert (Cp : 0 <= r_pcap r1 <= mm') by (destruct Caps as [[_ ->]|(_ & -> & _)]; lia).
+  assert (Cp : 0 <= r_pcap r1) by (destruct Caps as [[_ ->]|(_ & -> & _)]; lia).
+  assert (Cs : r_wcap r1 + r_pcap r1 <= cap') by (destruct Caps as [[-> ->]|(-> & -> & _ & <-)]; lia).
   rewrite e1 in W2. cbn [app] in W2. change (sumw []) with 0 in W2.
   rewrite Pt2, e3 in W3. cbn [app] in W3. change (sumw []) with 0 in W3. rewrite a2 in W3.
-  rewrite Pt3, Pb2, e2 in W4. cbn [app] in W4. rewrite b3, a3, e5 in W4. change (sumw []) with 0 in W4. rewrite Z.add_0_r in W4.
+  rewrite Pt3, Pb2, e2 in W4. cbn [app] in W4. rewrite b4, a4, e5 in W4.
   pose proof (gtake_fits (live r1) (r_wcap r1) win 0 Cw) as G1.
   pose proof (gtake_fits (live r2) (r_pcap r1) prot 0 ltac:(lia)) as G2.
-  rewrite <- W3 in G2.
-  assert (G3 : sumw (r_prot r3) + sumw (r_prob r4) <= mm').
-  { rewrite W4. apply gtake_fits. lia. }
-  split; [reflexivity|]. split; [congruence|].
-  rewrite Pb4, Pb3, W2. rewrite Pt4.
-  split; [apply gtake_subseq|]. split; [rewrite W3; apply gtake_subseq|]. split; [rewrite W4; apply gtake_subseq|].
-  rewrite c1, b1, c2, b2, a2.
-  split; [lia|]. split; [lia|]. split; [exact G3|]. split.
-  - rewrite Z4, Z3, Z2, e4.
-    assert (X2 : gtake (live r1) (r_wcap r1) (sumw (r_win r1)) win = gtake (live r1) (r_wcap r1) 0 win) by (rewrite e1; reflexivity).
+  rewrite <- W3 in G2. rewrite <- W2 in G1.
+  assert (S3 : r_wsz r3 = sumw (r_win r2) + sumw (r_prot r3)).
+  { rewrite Z3, Z2, e4.
+    assert (X2 : gtake (live r1) (r_wcap r1) (sumw (r_win r1)) win = r_win r2) by (rewrite e1, W2; reflexivity).
     assert (X3 : gtake (live r2) (r_pcap r2) (sumw (r_prot r2)) prot = r_prot r3) by (rewrite W3, Pt2, e3, a2; reflexivity).
-    assert (X4 : gtake (live r3) (r_mainmax r3) (sumw (r_prot r3) + sumw (r_prob r3)) prob = r_prob r4).
-    { rewrite W4, Pt3, Pb2, e2, b3, a3, e5. change (sumw []) with 0. rewrite Z.add_0_r. reflexivity. }
-    rewrite X2, X3, X4. lia.
+    rewrite X2, X3. lia. }
+  assert (G3 : r_wsz r3 + sumw (gtake (live r3) cap' (r_wsz r3) prob) <= cap') by (apply gtake_fits; lia).
+  assert (X4 : gtake (live r3) (r_cap r3) (r_wsz r3) prob = r_prob r4) by (rewrite W4, b4, a4, e5; reflexivity).
+  split; [reflexivity|]. split; [congruence|].
+  rewrite Pb4, Pb3. rewrite Pt4.
+  split; [rewrite W2; apply gtake_subseq|]. split; [rewrite W3; apply gtake_subseq|]. split; [rewrite W4; apply gtake_subseq|].
+  rewrite c1, b1, c2, b2, a2.
+  split; [lia|]. split; [lia|].
+  assert (S4 : r_wsz r4 = r_wsz r3 + sumw (r_prob r4)) by (rewrite Z4, X4; reflexivity).
+  split; [rewrite S4, W4; exact G3|]. split.
+  - rewrite S4, S3. lia.
   - rewrite a1. exact Caps.
 Qed.
 
-(* same capacity, nothing expired meanwhile, the saved regions within the saved split: everything
-   comes back, in the same order, under the saved clock origin *)
+(* same capacity, nothing expired meanwhile, window and protected within the saved split and the whole within the
+   capacity - whatever the split, also a window shrunk in favour of the main regions: everything comes back, in the same
+   order, under the saved clock origin *)
 Lemma reload_same version st tot cap wcap pcap win prot prob wc' pc' mm' st' wall :
   cap = cap -> 1 <= wcap -> 0 <= pcap -> w64 (wcap + pcap) = w64 (wc' + pc') ->
   (forall e, In e (win ++ prot ++ prob) -> 0 <= pe_pw e /\ (pe_expire e = 0 \/ wall - st <= pe_expire e)) ->
-  sumw win <= wcap -> sumw prot <= pcap -> sumw prot + sumw prob <= mm' ->
+  sumw win <= wcap -> sumw prot <= pcap -> sumw win + sumw prot + sumw prob <= cap ->
   let res := recover version (fresh cap wc' pc' mm' st' wall) (save version st tot cap wcap pcap win prot prob) in
   snd res = rOK /\ r_win (fst res) = win /\ r_prot (fst res) = prot /\ r_prob (fst res) = prob /\
   r_start (fst res) = st /\ r_wsz (fst res) = sumw win + sumw prot + sumw prob /\
@@ -425,7 +429,7 @@ Proof.
   set (r4 := fold_left put_prob prob r3) in *.
   destruct F2 as (a1 & a2 & a3 & a4 & a5 & a6 & a7). destruct F3 as (b1 & b2 & b3 & b4 & b5 & b6 & b7).
   destruct F4 as (c1 & c2 & c3 & c4 & c5 & c6 & c7).
-  assert (E1 : r_win r1 = [] /\ r_prob r1 = [] /\ r_prot r1 = [] /\ r_wsz r1 = 0 /\ r_mainmax r1 = mm' /\ r_start r1 = st /\ r_wall r1 = wall /\ r_map r1 = [])
+  assert (E1 : r_win r1 = [] /\ r_prob r1 = [] /\ r_prot r1 = [] /\ r_wsz r1 = 0 /\ r_cap r1 = cap /\ r_start r1 = st /\ r_wall r1 = wall /\ r_map r1 = [])
     by (repeat split; reflexivity).
   destruct E1 as (e1 & e2 & e3 & e4 & e5 & e6 & e7 & e8).
   assert (Lv : forall r, r_start r = st -> r_wall r = wall -> forall e, In e (win ++ prot ++ prob) -> live r e = true /\ 0 <= pe_pw e).
@@ -438,12 +442,13 @@ Proof.
   { rewrite Pt2, e3, a2, Cp. change (sumw []) with 0. apply gtake_all; [intros e He; apply (Lv r2 ltac:(congruence) ltac:(congruence)); apply in_or_app; right; apply in_or_app; left; exact He|lia]. }
   rewrite T2 in W2, M2, Z2. rewrite T3 in W3, M3, Z3.
   rewrite e1 in W2. cbn [app] in W2. rewrite Pt2, e3 in W3. cbn [app] in W3.
-  assert (T4 : gtake (live r3) (r_mainmax r3) (sumw (r_prot r3) + sumw (r_prob r3)) prob = prob).
-  { rewrite Pt3, Pb2, e2, b3, a3, e5, W3. change (sumw []) with 0. rewrite Z.add_0_r.
+  assert (S3 : r_wsz r3 = sumw win + sumw prot) by (rewrite Z3, Z2, e4; lia).
+  assert (T4 : gtake (live r3) (r_cap r3) (r_wsz r3) prob = prob).
+  { rewrite b4, a4, e5, S3.
     apply gtake_all; [intros e He; apply (Lv r3 ltac:(congruence) ltac:(congruence)); apply in_or_app; right; apply in_or_app; right; exact He|lia]. }
   rewrite T4 in W4, M4, Z4. rewrite Pt3, Pb2, e2 in W4. cbn [app] in W4.
   split; [reflexivity|]. split; [congruence|]. split; [congruence|]. split; [exact W4|]. split; [congruence|]. split.
-  - rewrite Z4, Z3, Z2, e4. lia.
+  - rewrite Z4, S3. lia.
   - rewrite M4, M3, M2, e8. reflexivity.
 Qed.
 
